@@ -71,7 +71,7 @@ func main() {
 		w := ensureWorker()
 		cmd := exec.Command(w.bin, "-replay", os.Args[2])
 		cmd.Stdout, cmd.Stderr = os.Stdout, os.Stderr
-		cmd.Env = append(os.Environ(), "GOMAXPROCS=2")
+		cmd.Env = append(os.Environ(), "GOMAXPROCS=2", "ZOGMC_REPLAY=1")
 		if err := cmd.Run(); err != nil {
 			if ee, ok := err.(*exec.ExitError); ok {
 				os.Exit(ee.ExitCode())
@@ -355,7 +355,7 @@ func check(id, tier string) int {
 			defer wg.Done()
 			out := filepath.Join(tmp, fmt.Sprintf("part%d.json", i))
 			cmd := exec.Command(w.bin, "-prop", id, "-tier", tier, "-shard", strconv.Itoa(i), "-nshards", strconv.Itoa(n), "-out", out, "-deadline", strconv.Itoa(deadline))
-			cmd.Env = append(os.Environ(), "GOMAXPROCS=2", "ZOGMC_VERIF="+verifDir, "ZOGMC_REPO="+repoDir, "ZOGMC_TMP="+tmp)
+			cmd.Env = append(os.Environ(), "GOMAXPROCS=1", "ZOGMC_VERIF="+verifDir, "ZOGMC_REPO="+repoDir, "ZOGMC_TMP="+tmp)
 			var buf bytes.Buffer
 			cmd.Stdout, cmd.Stderr = &buf, &buf
 			err := cmd.Run()
